@@ -66,6 +66,9 @@ def run(ctx):
                 if nm == "cross_tick_state_lifetime" and ("is_top_level", True) not in g:
                     ctx.violation(RL, k + "|unguarded-static", "a 'static (cross-tick) state lifetime is chosen on a path not decided by is_top_level() == true: tick-scoped state would leak across ticks / "
                                   "top-level selection lost", loc, {"guards": sorted(map(str, g))})
+                if nm == "tick_state_lifetime" and ("is_top_level", False) not in g and ("is_top_level", True) not in g and _sibling_of_cross(b, bb):
+                    ctx.violation(RL, k + "|tick-lifetime-may-be-top-level", "this 'tick state lifetime is the alternative of a 'static one, but the decision between them is not is_top_level() alone: "
+                                  "on some path a top-level input gets state that is reset every tick, so results depend on how inputs are split into ticks", loc, {"guards": sorted(map(str, g))})
                 if nm == "tick_state_lifetime" and ("is_top_level", True) in g:
                     ctx.violation(RL, k + "|tick-lifetime-at-top-level", "a 'tick state lifetime is chosen on the is_top_level() == true edge: top-level state would be reset every tick, so results "
                                   "depend on how inputs are split into ticks", loc, {"guards": sorted(map(str, g))})
@@ -131,3 +134,28 @@ def watermark_rule(ctx):
         if keep[0][1] != NEG[rej[0][1]]:
             ctx.violation(R, key + "|guards-not-complementary", "a key is rejected on arrival when `k %s watermark` but kept by the collection when `k %s watermark`: a key equal to the watermark "
                           "survives or not depending on whether it arrived before or after the watermark" % (rej[0][1], keep[0][1]), "%s:%s" % (f, m["line"]))
+
+
+def _sibling_of_cross(b, tb):
+    """is the tick_state_lifetime call in block `tb` one arm of a decision whose other arm calls cross_tick_state_lifetime?"""
+    idom = b.idoms()
+    d = idom.get(tb) if isinstance(idom, dict) else idom[tb]
+    seen = 0
+    while d is not None and seen < 200:
+        seen += 1
+        if b.term(d)["k"] == "switch":
+            break
+        nd = idom.get(d) if isinstance(idom, dict) else idom[d]
+        if nd == d:
+            return False
+        d = nd
+    if d is None:
+        return False
+    from_t = b.reachable(start=tb)
+    for cb, t in b.calls():
+        f = t.get("f") or {}
+        if f.get("name") != "cross_tick_state_lifetime" or b.is_cleanup(cb):
+            continue
+        if b.dominates(d, cb) and cb not in from_t and tb not in b.reachable(start=cb):
+            return True
+    return False
